@@ -117,6 +117,14 @@ class GraphNode(HyperNode):
         return "GRAPH"
 
     @property
+    def nx_attrs(self) -> dict[str, Any]:
+        """Flattened attributes, plus the inner name behind every renamed output."""
+        attrs = super().nx_attrs
+        original = build_reverse_rename_map(self._rename_history, "outputs")
+        attrs["output_sources"] = {out: original[out] for out in self.outputs if original.get(out, out) != out}
+        return attrs
+
+    @property
     def nested_graph(self) -> "Graph":
         """Returns the nested Graph."""
         return self._graph
